@@ -350,7 +350,87 @@ thread_local! {
 }
 
 /// run a library call with the hang monitor armed
+// ------------------------------------------------------------------------------------------------
+// breadcrumbs: what was in flight when the process died
+
+thread_local! {
+    static CRUMB: std::cell::RefCell<Option<std::fs::File>> = const { std::cell::RefCell::new(None) };
+}
+static CRUMB_SEQ: std::sync::atomic::AtomicUsize = std::sync::atomic::AtomicUsize::new(0);
+
+/// documents beyond this size are not copied into the breadcrumb (only the query and the size are)
+const CRUMB_DOC_LIMIT: usize = 64 << 10;
+
+/// When the supervising process asked for it (JPV_CRUMBS = a directory), every library call leaves its
+/// input in a per-thread file before it starts and clears it when it returns; a call that takes the whole
+/// process down (stack overflow, abort) is then still known to the supervisor.
+fn crumb_write(q: Option<(&str, &Value)>) {
+    use std::os::unix::fs::FileExt;
+    static DIR: OnceLock<Option<PathBuf>> = OnceLock::new();
+    let dir = DIR.get_or_init(|| std::env::var("JPV_CRUMBS").ok().map(PathBuf::from));
+    let dir = match dir {
+        Some(d) => d,
+        None => return,
+    };
+    CRUMB.with(|c| {
+        let mut c = c.borrow_mut();
+        if c.is_none() {
+            let n = CRUMB_SEQ.fetch_add(1, std::sync::atomic::Ordering::Relaxed);
+            *c = std::fs::OpenOptions::new().create(true).read(true).write(true).open(dir.join(format!("p{}-t{}.crumb", std::process::id(), n))).ok();
+        }
+        if let Some(f) = c.as_ref() {
+            match q {
+                None => {
+                    let _ = f.write_all_at(&0u32.to_le_bytes(), 0);
+                }
+                Some((q, doc)) => {
+                    let mut body = serde_json::to_vec(&json!({"query": q})).unwrap_or_default();
+                    // {"query":...} + ,"doc":...}
+                    let doc_text = serde_json::to_vec(doc).unwrap_or_default();
+                    if doc_text.len() <= CRUMB_DOC_LIMIT {
+                        body.pop();
+                        body.extend_from_slice(b",\"doc\":");
+                        body.extend_from_slice(&doc_text);
+                        body.push(b'}');
+                    }
+                    let _ = f.write_all_at(&body, 4);
+                    let _ = f.write_all_at(&(body.len() as u32).to_le_bytes(), 0);
+                }
+            }
+        }
+    });
+}
+
+/// the inputs that were in flight when a supervised run died (read by the supervisor)
+pub fn read_crumbs(dir: &std::path::Path) -> Vec<Value> {
+    let mut out = vec![];
+    if let Ok(rd) = std::fs::read_dir(dir) {
+        for e in rd.flatten() {
+            if let Ok(bytes) = std::fs::read(e.path()) {
+                if bytes.len() >= 4 {
+                    let n = u32::from_le_bytes([bytes[0], bytes[1], bytes[2], bytes[3]]) as usize;
+                    if n > 0 && bytes.len() >= 4 + n {
+                        if let Ok(text) = std::str::from_utf8(&bytes[4..4 + n]) {
+                            if let Ok(v) = crate::json::parse_json_unbounded(text) {
+                                out.push(v);
+                            }
+                        }
+                    }
+                }
+            }
+        }
+    }
+    out
+}
+
 pub fn in_flight<T>(q: &str, doc: &Value, f: impl FnOnce() -> T) -> T {
+    crumb_write(Some((q, doc)));
+    let r = in_flight_inner(q, doc, f);
+    crumb_write(None);
+    r
+}
+
+fn in_flight_inner<T>(q: &str, doc: &Value, f: impl FnOnce() -> T) -> T {
     MY_SLOT.with(|s| {
         let mut g = s.lock().unwrap();
         g.since = Some(std::time::Instant::now());
